@@ -346,6 +346,37 @@ def two_exit_loop(x0: int, goal: int, cap: int, gates_first: str = "conv", name:
     return {"spec": {"name": name, "nodes": nodes, "bind": {}}, "inputs": inputs, "ref": ref, "template": f"two_exit({gates_first})"}
 
 
+def fanout_join_loop(n_limit: int, s0: int, exit_: str = "END", extra_input: bool = False, name: str = "fanjoin"):
+    """A cycle with a fan-out and a join inside: `left(state)` and `right(state)` both read the loop state (two entry
+    points with the same parameters), `join(l_out, r_out) -> state` closes the cycle (a third entry point with other
+    parameters). A multi-target route selects both branches or leaves the loop.
+    `while state < N: state = (state + 1) + (state + 2)`"""
+    left = {"k": "fn", "name": "left", "params": [{"n": "state"}] + ([{"n": "scale"}] if extra_input else []), "outs": ["l_out"], "beh": ["inc", "state"]}
+    right = {"k": "fn", "name": "right", "params": [{"n": "state"}], "outs": ["r_out"], "beh": ["addc", "state", 2]}
+    join = {"k": "fn", "name": "join", "params": [{"n": "l_out"}, {"n": "r_out"}], "outs": ["state"], "beh": ["sum", "l_out", "r_out"]}
+    stop = []  # a multi-target gate leaves the loop by selecting nothing
+    gate = {"k": "route", "name": "again", "params": [{"n": "state"}], "targets": ["left", "right"], "multi": True, "cond": ["lt", "state", n_limit], "then": ["left", "right"], "else": stop, "open": True}
+    nodes = [left, right, join, gate]
+    inputs = {"state": s0}
+    if extra_input:
+        inputs["scale"] = 7
+    trace = []
+    s = s0
+    while True:
+        trace.append(("again", {}))
+        if not s < n_limit:
+            break
+        l, r = s + 1, s + 2
+        trace.append(("left", {"l_out": l}))
+        trace.append(("right", {"r_out": r}))
+        s = l + r
+        trace.append(("join", {"state": s}))
+    vals = _fold(inputs, trace)
+    vals.setdefault("state", s0)
+    ref = {"trace": None, "values": vals, "counts": _counts(trace), "singleton_steps": False, "steps": len(trace)}
+    return {"spec": {"name": name, "nodes": nodes, "bind": {}}, "inputs": inputs, "ref": ref, "template": f"fanout_join(exit={exit_},extra={extra_input})"}
+
+
 def nested_loop(n_limit: int, c0: int, body_len: int = 1, gate: str = "route", depth: int = 1):
     """T7: the counter loop wrapped as a nested graph inside a DAG: pre -> [loop] -> post."""
     inner = counter_loop(n_limit, c0 + 1, body_len, gate, name="inner")
@@ -396,6 +427,8 @@ def systematic_templates(N: int) -> list:
         two_exit_loop(N % 2, 100, 2 * N + 1, "conv"),
         two_exit_loop(0, 2 * N, 100, "budget"),
         two_signal_loop(3 * N, N % 2, 1),
+        fanout_join_loop(4 * N, N % 2, "empty"),
+        fanout_join_loop(4 * N, 0, "empty", True),
     ]
 
 
@@ -408,6 +441,8 @@ def gen_loop(rng):
         return two_exit_loop(rng.randint(0, 3), rng.choice([0, 2, 6, 9, 100]), rng.choice([3, 5, 8, 100]), rng.choice(["conv", "budget"]))
     if rng.random() < 0.08:
         return interval_loop(rng.randint(2, 12), rng.randint(0, 4))
+    if rng.random() < 0.08:
+        return fanout_join_loop(rng.randint(0, 30), rng.randint(0, 3), "empty", rng.random() < 0.4)
     if t == "lagged":
         return lagged_signal_loop(n, c0, rng.choice(["route", "ifelse"]))
     if t == "counter":
